@@ -4,6 +4,6 @@ ID=$1; shift
 git -C /repo apply /verif/seeded/$ID/patch.diff || exit 1
 for P in "$@"; do
   echo "--- $P on $ID"
-  /verif/bin/check $P 2>&1 | grep -E "VIOLATION|PASS|FAIL|BROKEN" | cut -c1-260 | head -8
+  /verif/bin/check $P 2>&1 | grep -E "VIOLATION|PASS|FAIL|BROKEN" | cut -c1-260 | tail -6
 done
 git -C /repo checkout -- .
